@@ -2367,7 +2367,10 @@ def _glom(target, spec, scope):
             cur_scope = scope[UP]
             # (a scope flattened by Spec.glom(scope=S) has no parent map to record into)
             while NO_PYFRAME in cur_scope.maps[0] and len(cur_scope.maps) > 1:
-                cur_scope.maps[1][CHILD_ERRORS].append(cur_scope)
+                # (an error raised lazily, e.g. inside an Iter() consumed by a later
+                # step, passes the same chained scopes once per step it unwinds)
+                if not any(s is cur_scope for s in cur_scope.maps[1][CHILD_ERRORS]):
+                    cur_scope.maps[1][CHILD_ERRORS].append(cur_scope)
                 cur_scope.maps[0][CUR_ERROR] = e
                 cur_scope = cur_scope[UP]
         raise
